@@ -51,7 +51,10 @@ def confirm(src, name, prop):
     wt = worktree(name)
     meta = {"name": name, "property": prop, "ran": []}
     try:
-        shutil.copy(demo, os.path.join(wt, "SEEDED_demo.py"))
+        # demos written by the sub-agents often assert the import path of their own scratch worktree: retarget it
+        text = open(demo).read().replace(os.path.abspath(src), wt)
+        with open(os.path.join(wt, "SEEDED_demo.py"), "w") as fh:
+            fh.write(text)
         rc0, out0 = run_demo(wt, "SEEDED_demo.py")
         meta["ran"].append({"cmd": "demo on unmodified HEAD", "exit": rc0})
         r = sh(["git", "-C", wt, "apply", "--whitespace=nowarn", patch])
@@ -76,7 +79,8 @@ def confirm(src, name, prop):
         dst = os.path.join(SEEDED, name)
         os.makedirs(dst, exist_ok=True)
         shutil.copy(patch, os.path.join(dst, "patch.diff"))
-        shutil.copy(demo, os.path.join(dst, "demo.py"))
+        with open(os.path.join(dst, "demo.py"), "w") as fh:
+            fh.write(text)
         with open(os.path.join(dst, "meta.json"), "w") as fh:
             json.dump(meta, fh, indent=1)
         print("CONFIRMED ->", dst)
